@@ -112,6 +112,9 @@ func alphabet(nviews int, focus string) []op {
 				add(oBSet, k, []byte("b"), "b.Set("+hx(k)+",b)")
 				add(oBDelete, k, nil, "b.Delete("+hx(k)+")")
 			}
+			for _, k := range keys[1:3] {
+				add(oBSet, k, []byte{}, "b.Set("+hx(k)+",empty)") // an empty value is a value, not a deletion
+			}
 			add(oCommit, nil, nil, "b.Commit")
 			add(oCancel, nil, nil, "b.Cancel")
 			add(oClose, nil, nil, "Close")
